@@ -576,6 +576,14 @@ def ev(cx, n, env, pc):
             cur = z3.And(cur, c)
             left = right
         return res
+    if isinstance(n, ast.NamedExpr):
+        # (name := value): binds the name for what is evaluated afterwards in the same scope (env dictionaries are per lambda call /
+        # per comprehension element); a binding made in a branch that short-circuits away is over-approximated as made
+        if not isinstance(n.target, ast.Name):
+            raise EncodingError("assignment expression target")
+        v = ev(cx, n.value, env, pc)
+        env[n.target.id] = v
+        return v
     if isinstance(n, ast.BoolOp):
         acc = None
         cur = pc
